@@ -62,6 +62,9 @@ SCHEDULES = [
      [], {"cfg": CFG + "versions:\n  v1: ../v1\n  v2: ../v2\n",
           "files": {"v1/_package.yml": "namespace: Wt\n", "v1/m.yml": small_model("X"), "v2/_package.yml": "namespace: Wt\n", "v2/m.yml": small_model("X")},
           "final": "small"}),
+    # the manifest itself is saved while watching: an output that was switched off when the watcher started is switched on
+    ("manifest-switches-cpp-ndjson-on", [(0.0, "small"), (0.5, "model/_package.yml=" + CFG), (0.6, "medium")], [],
+     {"cfg": CFG.replace("  generateCMakeLists: false\n", "  generateCMakeLists: false\n  generateNDJson: false\n"), "files": {}, "final": "medium"}),
     ("unfetchable-import-of-import", [(0.0, "lib/_package.yml=namespace: Lib\nimports:\n  - ../lib2\n  - ftp://example.invalid/x\n"), (0.4, "small"),
                                       (0.4, "lib/_package.yml=namespace: Lib\nimports:\n  - 'https:'\n"), (0.4, "small2"),
                                       (0.4, "lib/_package.yml=namespace: Lib\nimports:\n  - ../lib2\n"), (0.4, "uses-lib")]),
